@@ -269,8 +269,12 @@ class TokLine:
     """self.line seen as blank-separated pieces LINE[k]"""
     def __init__(self, arr):
         self.arr = arr
+        self.known = []          # (position, piece) cut facts, read back syntactically (path decisions on them need no solver)
 
     def piece(self, k):
+        for idx, term in self.known:
+            if z3.is_true(z3.simplify(idx == k)):
+                return term
         return z3.Select(self.arr, k)
 
     def char(self, I, k, off, node):
@@ -455,7 +459,26 @@ class ParseNode(Contract):
                 I.ctx.ghosts = ghosts
                 g_ = tag(t)
                 # the printed word field has no backslash (quantifier of C08); CANON: the category fields are texts str(c)
-                return [obj], {}, [k0 >= 0, line_is(line, k0, t), canon_axiom(I), z3.Not(z3.Contains(WORD(g_), S('\\')))], None
+                pre = [k0 >= 0, line_is(line, k0, t), canon_axiom(I), z3.Not(z3.Contains(WORD(g_), S('\\')))]
+                for a in pre:
+                    I.ctx.assume(a)
+                # cut facts: the pieces at the positions the parser inspects, as ground consequences of the precondition (obligation, then fact)
+                if kind == 'leaf':
+                    cuts = [(0, K.OpenL), (1, K.Field(ct(I, g_))), (2, K.Field(POS(g_))), (3, K.Field(POS(g_))), (4, K.Field(WORD(g_))), (5, K.LeafEnd(ct(I, g_)))]
+                else:
+                    flag = S('0') if kind == 'unary' else z3.If(T.hl(t), S('0'), S('1'))
+                    cuts = [(0, K.OpenT), (1, K.Field(ct(I, g_))), (2, K.Field(flag)), (3, K.Field(S('1>' if kind == 'unary' else '2>')))]
+                    off = 4
+                    for s_ in subs:
+                        cuts.append((off, z3.If(T.is_Leaf(s_), K.OpenL, K.OpenT)))
+                        off = off + ntoks(s_)
+                    cuts.append((off, K.Close))
+                for off, want in cuts:
+                    fact = z3.Select(line.arr, k0 + off) == want
+                    I.oblige('cut', fact, None, extra='piece of the specification at a position the parser inspects')
+                    I.ctx.assume(fact)
+                    line.known.append((k0 + off, want))
+                return [obj], {}, [], None
             yield Case(kind, build)
 
     def post(self, I, case, args, result):
